@@ -309,23 +309,99 @@ pub fn derive_key(phsf: &str, password: &[u8]) -> Result<Vec<u8>, String> {
     let p = parse_phc(phsf).ok_or("unparsable PHSF")?;
     let salt = b64_nopad(p.salt.as_deref().ok_or("no salt")?).ok_or("bad salt")?;
     let get = |k: &str| p.params.iter().find(|(a, _)| a == k).and_then(|(_, v)| v.parse::<u32>().ok());
+    // a hash field, when present, fixes the output length (argon2); pbkdf2 carries it as `l`
+    let hash_len = p.hash.as_deref().and_then(b64_nopad).map(|h| h.len());
     match p.alg.as_str() {
-        "pbkdf2-sha256" => {
+        "pbkdf2-sha256" | "pbkdf2-sha512" => {
             let rounds = get("i").unwrap_or(600_000);
             let l = get("l").unwrap_or(32) as usize;
             let mut out = vec![0u8; l];
-            pbkdf2::pbkdf2_hmac::<sha2::Sha256>(password, &salt, rounds, &mut out);
+            if p.alg == "pbkdf2-sha256" {
+                pbkdf2::pbkdf2_hmac::<sha2::Sha256>(password, &salt, rounds, &mut out);
+            } else {
+                pbkdf2::pbkdf2_hmac::<sha2::Sha512>(password, &salt, rounds, &mut out);
+            }
             Ok(out)
         }
-        "argon2id" => {
-            let params = argon2::Params::new(get("m").unwrap_or(19456), get("t").unwrap_or(2), get("p").unwrap_or(1), Some(32)).map_err(|e| e.to_string())?;
-            let a = argon2::Argon2::new(argon2::Algorithm::Argon2id, argon2::Version::V0x13, params);
-            let mut out = vec![0u8; 32];
+        "argon2id" | "argon2i" | "argon2d" => {
+            let l = hash_len.unwrap_or(32);
+            let params = argon2::Params::new(get("m").unwrap_or(19456), get("t").unwrap_or(2), get("p").unwrap_or(1), Some(l)).map_err(|e| e.to_string())?;
+            let alg = match p.alg.as_str() {
+                "argon2id" => argon2::Algorithm::Argon2id,
+                "argon2i" => argon2::Algorithm::Argon2i,
+                _ => argon2::Algorithm::Argon2d,
+            };
+            let ver = match p.version {
+                Some(16) => argon2::Version::V0x10,
+                Some(19) | None => argon2::Version::V0x13,
+                Some(v) => return Err(format!("unsupported argon2 version {v}")),
+            };
+            let a = argon2::Argon2::new(alg, ver, params);
+            let mut out = vec![0u8; l];
             a.hash_password_into(password, &salt, &mut out).map_err(|e| e.to_string())?;
             Ok(out)
         }
         other => Err(format!("unsupported algorithm {other}")),
     }
+}
+
+pub fn b64_nopad_enc(b: &[u8]) -> String {
+    const T: &[u8; 64] = b"ABCDEFGHIJKLMNOPQRSTUVWXYZabcdefghijklmnopqrstuvwxyz0123456789+/";
+    let mut out = String::new();
+    for c in b.chunks(3) {
+        let n = (c[0] as u32) << 16 | (*c.get(1).unwrap_or(&0) as u32) << 8 | *c.get(2).unwrap_or(&0) as u32;
+        out.push(T[(n >> 18) as usize & 63] as char);
+        out.push(T[(n >> 12) as usize & 63] as char);
+        if c.len() > 1 { out.push(T[(n >> 6) as usize & 63] as char); }
+        if c.len() > 2 { out.push(T[n as usize & 63] as char); }
+    }
+    out
+}
+
+/// Reference encryption (what a foreign writer following the specification produces after the IV).
+pub fn encrypt(enc: u8, mode: u8, key: &[u8], iv: &[u8], pt: &[u8]) -> Result<Vec<u8>, String> {
+    let c = Blk::new(enc, key)?;
+    if mode == 0 {
+        let pad = 16 - pt.len() % 16;
+        let mut p = pt.to_vec();
+        p.extend(std::iter::repeat(pad as u8).take(pad));
+        let mut chain = iv.to_vec();
+        let mut out = vec![];
+        for b in p.chunks(16) {
+            let mut x: Vec<u8> = b.iter().zip(chain.iter()).map(|(a, b)| a ^ b).collect();
+            c.e(&mut x);
+            out.extend_from_slice(&x);
+            chain = x;
+        }
+        Ok(out)
+    } else {
+        // CTR is its own inverse
+        decrypt(enc, mode, key, iv, pt).map_err(|e| e.to_string())
+    }
+}
+
+/// CBC without padding (for hand-made streams whose padding is deliberately wrong); `pt.len() % 16 == 0`.
+pub fn encrypt_cbc_raw(enc: u8, key: &[u8], iv: &[u8], pt: &[u8]) -> Result<Vec<u8>, String> {
+    let c = Blk::new(enc, key)?;
+    let mut chain = iv.to_vec();
+    let mut out = vec![];
+    for b in pt.chunks(16) {
+        let mut x: Vec<u8> = b.iter().zip(chain.iter()).map(|(a, b)| a ^ b).collect();
+        c.e(&mut x);
+        out.extend_from_slice(&x);
+        chain = x;
+    }
+    Ok(out)
+}
+
+pub fn compress(comp: u8, data: &[u8]) -> std::io::Result<Vec<u8>> {
+    use std::io::Write;
+    Ok(match comp {
+        0 => data.to_vec(),
+        1 => { let mut e = flate2::write::ZlibEncoder::new(vec![], flate2::Compression::default()); e.write_all(data)?; e.finish()? }
+        2 => zstd::encode_all(data, 3)?,
+        _ => { let mut e = liblzma::write::XzEncoder::new(vec![], 6); e.write_all(data)?; e.finish()? }
+    })
 }
 
 enum Blk {
